@@ -489,6 +489,9 @@ func ParseContractFile(repo, rel string) (*ContractFile, error) {
 			cf.Items = append(cf.Items, it)
 		}
 	}
+	for _, it := range cf.Items {
+		it.Imports = cf.Imports
+	}
 	return cf, nil
 }
 
@@ -545,8 +548,9 @@ func desugar(s string) string {
 			}
 			inner := s[i+1 : j]
 			// EqT(a, b) sugar
-			isEqT := ch == '(' && (strings.HasSuffix(out.String(), "EqT") || strings.HasSuffix(out.String(), "EqTP") || strings.HasSuffix(out.String(), "Panics") || strings.HasSuffix(out.String(), "Returns"))
-			isEq := ch == '(' && strings.HasSuffix(out.String(), "Eq") && !strings.HasSuffix(out.String(), ".Eq") || ch == '(' && strings.HasSuffix(out.String(), "verifspec.Eq")
+			isEqT := ch == '(' && (endsWithWord(out.String(), "EqT") || endsWithWord(out.String(), "EqTP") || endsWithWord(out.String(), "Panics") || endsWithWord(out.String(), "Returns") ||
+				strings.HasSuffix(out.String(), "verifspec.EqT") || strings.HasSuffix(out.String(), "verifspec.Panics"))
+			isEq := ch == '(' && endsWithWord(out.String(), "Eq") || ch == '(' && strings.HasSuffix(out.String(), "verifspec.Eq")
 			if isEq || strings.Contains(inner, "forall ") || strings.Contains(inner, "exists ") || strings.Contains(inner, "EqT") || strings.Contains(inner, "Panics(") || strings.Contains(inner, "Returns(") || isEqT {
 				ti := strings.TrimSpace(inner)
 				if ch == '(' && (strings.HasPrefix(ti, "forall ") || strings.HasPrefix(ti, "exists ")) {
@@ -642,4 +646,17 @@ func matchClose(s string, i int) int {
 		}
 	}
 	return -1
+}
+
+// endsWithWord: s ends with the identifier w, not preceded by an identifier character or a dot.
+func endsWithWord(s, w string) bool {
+	if !strings.HasSuffix(s, w) {
+		return false
+	}
+	i := len(s) - len(w)
+	if i == 0 {
+		return true
+	}
+	c := s[i-1]
+	return !(isIdentChar(c) || c == '.')
 }
